@@ -1,6 +1,6 @@
 /-
 C04: decision logic of SM2 signature verification in the model of gm-sm2 (`Impl.SM2.verify_raw`, `verify`, key.rs):
-accepts exactly when …, never panics, rejects every malformed (r, s) encoding with an error.
+accepts exactly when …, never panics, rejects every malformed (r, s) encoding and the sum at infinity with an error.
 Only the property theorems; all work is in `GmVerif.Proofs.SM2Logic`.  Point operations stay opaque.
 -/
 import GmVerif.Proofs.SM2Logic
@@ -9,13 +9,15 @@ namespace GmVerif.Thm.C04
 open GmVerif GmVerif.Impl.SM2
 open GmVerif.Proofs.SM2Logic.Ex (sigEx)
 
-/-- verification accepts exactly: 32-byte digest, 64-byte signature, r and s in [1, n-1], t = s + r ≠ 0 (mod n) and
-    r = (x1 + e) mod n for (x1, _) = [s]G + [t]P_A -/
+/-- verification accepts exactly: 32-byte digest, 64-byte signature, r and s in [1, n-1], t = s + r ≠ 0 (mod n),
+    [s]G + [t]P_A is not the point at infinity (Z ≠ 0) and r = (x1 + e) mod n for (x1, _) = [s]G + [t]P_A -/
 theorem verify_raw_iff (digest : List UInt8) (pk : Point) (sig : List UInt8) :
     verify_raw digest pk sig = .ok () ↔
       digest.length = 32 ∧ sig.length = 64 ∧
       1 ≤ beNat (sig.take 32) ∧ beNat (sig.take 32) < Gen.SM2.N ∧ 1 ≤ beNat (sig.drop 32) ∧ beNat (sig.drop 32) < Gen.SM2.N ∧
       fn_add (beNat (sig.drop 32)) (beNat (sig.take 32)) ≠ 0 ∧
+      ((g_mul (beNat (sig.drop 32))).point_add
+          (pk.scalar_mul (fn_add (beNat (sig.drop 32)) (beNat (sig.take 32))))).is_zero = false ∧
       beNat (sig.take 32) =
         fn_add (reduceN (fp_from_mont (((g_mul (beNat (sig.drop 32))).point_add
                   (pk.scalar_mul (fn_add (beNat (sig.drop 32)) (beNat (sig.take 32))))).to_affine_point).x))
@@ -30,7 +32,7 @@ example : beNat (sigEx.take 32) =
     fn_add (reduceN (fp_from_mont (((g_mul (beNat (sigEx.drop 32))).point_add
               ((g_mul 5).scalar_mul (fn_add (beNat (sigEx.drop 32)) (beNat (sigEx.take 32))))).to_affine_point).x))
            (reduceN (beNat (List.replicate 32 0x11))) :=
-  ((verify_raw_iff _ _ _).mp (by decide +kernel)).2.2.2.2.2.2.2
+  ((verify_raw_iff _ _ _).mp (by decide +kernel)).2.2.2.2.2.2.2.2
 /-- and the rejecting side: one flipped bit in s -/
 example : verify_raw (List.replicate 32 0x11) (g_mul 5)
     (sigEx.take 63 ++ [0x11]) = .err "InvalidDigest" := by decide +kernel
@@ -73,6 +75,24 @@ example : ∃ e, verify_raw (List.replicate 32 0x11) (g_mul 5) (sigEx.take 32 ++
 /-- s = 2^256 - 1 -/
 example : ∃ e, verify_raw (List.replicate 32 0x11) (g_mul 5) (sigEx.take 32 ++ List.replicate 32 0xFF) = .err e :=
   verify_out_of_range _ _ _ (by decide +kernel) (.inr (.inr (.inr (by decide +kernel))))
+
+/-- GB/T 32918.2 B6: a signature that passes the length, range and t ≠ 0 checks but for which [s]G + [t]P_A is the point
+    at infinity is rejected with an error (before the fix of key.rs the model read x1 = 0 off that point) -/
+theorem verify_sum_infinity (digest : List UInt8) (pk : Point) (sig : List UInt8)
+    (hd : digest.length = 32) (hs : sig.length = 64)
+    (hr : 1 ≤ beNat (sig.take 32) ∧ beNat (sig.take 32) < Gen.SM2.N)
+    (hsr : 1 ≤ beNat (sig.drop 32) ∧ beNat (sig.drop 32) < Gen.SM2.N)
+    (ht : fn_add (beNat (sig.drop 32)) (beNat (sig.take 32)) ≠ 0)
+    (h : ((g_mul (beNat (sig.drop 32))).point_add
+        (pk.scalar_mul (fn_add (beNat (sig.drop 32)) (beNat (sig.take 32))))).is_zero = true) :
+    verify_raw digest pk sig = .err "InvalidDigest" :=
+  Proofs.SM2Logic.verify_sum_infinity digest pk sig hd hs hr hsr ht h
+
+/-- the hypotheses are satisfiable: public key G (d = 1), e = 1, r = 1, s = (n−1)/2, so t = (n+1)/2 and
+    [s]G + [t]G = [n]G = O; r = e mod n, so this is the input the unfixed code accepted -/
+example : verify_raw (natBE 32 1) (g_mul 1) (natBE 32 1 ++ natBE 32 ((Gen.SM2.N - 1) / 2)) = .err "InvalidDigest" :=
+  verify_sum_infinity _ _ _ (by decide) (by decide) (by decide +kernel) (by decide +kernel) (by decide +kernel)
+    (by decide +kernel)
 
 /-- verify = verify_raw on e = SM3(ZA ‖ M) -/
 theorem verify_unfold (pk : Point) (id msg sig : List UInt8) (za : List UInt8) (h : compute_za id pk = .ok za) :
